@@ -128,8 +128,34 @@ Fixpoint split_type_name (ts : list token) : bool :=
   | [] => false
   end.
 
+(* A name in type position that starts like a built-in type (str, f32, f64, u<d>, i<d>) without being one is read by the real
+   grammar as the built-in followed by garbage ("struct" = str + uct): the known finding builtin-prefix. The model resolves such a
+   name like any other; after ":" or "[" (every type position, and some value positions) it is outside the model's domain. *)
+Definition starts_with (p s : string) : bool := String.eqb (substring 0 (String.length p) s) p.
+Definition builtin_prefixed (name : string) : bool :=
+  match classify name with
+  | PTRef _ =>
+      starts_with "str" name || starts_with "f32" name || starts_with "f64" name ||
+      match name with
+      | String c (String d _) => ((Ascii.eqb c "u" || Ascii.eqb c "i") && is_digit d)%char
+      | _ => false
+      end
+  | _ => false
+  end.
+
+Fixpoint prefixed_type_name (ts : list token) : bool :=
+  match ts with
+  | TPunct c :: (TId name :: _) as ts' =>
+      ((Ascii.eqb c ":" || Ascii.eqb c "[")%char && builtin_prefixed name) || prefixed_type_name ts'
+  | _ :: ts' => prefixed_type_name ts'
+  | [] => false
+  end.
+
 Definition file_out_of_domain (src : string) : bool :=
-  match lex src with Some ts => paren_free_param (S (length ts)) false ts || split_type_name ts | None => false end.
+  match lex src with
+  | Some ts => paren_free_param (S (length ts)) false ts || split_type_name ts || prefixed_type_name ts
+  | None => false
+  end.
 
 Inductive ofront :=
 | FOk (f : front)                      (* get_fcp returned Ok *)
